@@ -72,6 +72,12 @@ def configs(tier, seed):
                     pc.append(dict(fn=fn, x=list(x), shape=shape, axis=ax))
     for c in C.pick(pc, 60 if tier == 'quick' else len(pc), rng):
         out.append(dict(c, route=rng.choice(('numpy', 'method'))))
+    # operands that are not C-contiguous (the .T of an object): flattening reductions must follow the logical order, not the memory order
+    tr = [dict(fn=fn, x=list(x), shape=shape, axis=ax) for fn in ('cumprod', 'cumsum', 'sum', 'prod', 'sort', 'max')
+          for shape in ([2, 2], [2, 3]) for ax in (None, 0, 1) for x in _fmts(3)
+          if not (fn in ('prod', 'cumprod') and (C.size_of(shape) if ax is None else shape[ax]) > 4) and not (fn == 'sort' and ax is None)]
+    for c in C.pick(tr, 24 if tier == 'quick' else len(tr), rng):
+        out.append(dict(c, route=rng.choice(('numpy', 'method')), age='transposed', axis=(-1 if c['fn'] == 'sort' and c['axis'] == 1 else c['axis'])))
     dc = []
     for (sa, sb) in (([3], [3]), ([2, 2], [2, 2]), ([3, 3], [3]), ([2, 3], [3, 2]), ([2], [2, 2])):
         for x in _fmts(8):
